@@ -5,7 +5,9 @@ package c09
 import (
 	"fmt"
 	"math"
+	"regexp"
 	"sort"
+	"strconv"
 	"strings"
 	"sync"
 
@@ -62,6 +64,10 @@ func menu(tier string) []*item {
 	add("line+quad-collinear-cusp-beyond-end", oracle.Chain(false, oracle.MkLine(P(-2, 1), o), oracle.MkQuad(o, P(3, 0), P(2, 0))))
 	add("cube-collinear-two-cusps-beyond-both", oracle.Chain(false, oracle.MkCube(o, P(-1, 0), P(4, 0), P(3, 0))))
 	add("cube-collinear-two-cusps-oblique", oracle.Chain(false, oracle.MkCube(o, P(4, 2), P(-2, -1), P(2, 1))))
+	// the same with both end tangents pointing forward: the first control point lies beyond the end
+	// point, the second between the end points (the pen overshoots the end and comes back)
+	add("cube-collinear-two-cusps-forward-tangents", oracle.Chain(false, oracle.MkCube(o, P(6, 0), P(1, 0), P(2, 0))))
+	add("cube-collinear-two-cusps-forward-tangents-oblique", oracle.Chain(false, oracle.MkCube(o, P(6, 3), P(0.4, 0.2), P(2, 1))))
 	// closed shapes
 	add("triangle", oracle.Chain(true, oracle.MkLine(o, P(4, 0)), oracle.MkLine(P(4, 0), P(2, 3))))
 	add("closed-quad-cube", oracle.Chain(true, oracle.MkQuad(o, P(2, 2), P(4, 0)), oracle.MkCube(P(4, 0), P(5, -2), P(1, -3), P(1, -1))))
@@ -705,6 +711,16 @@ func Prop() *fw.Property {
 			"cusp": func(v *fw.Violation) bool { return strings.Contains(v.Case, "cusp") },
 			// the path contains the long eccentric rotated arc A3 1 120 1 0
 			"long-eccentric-arc": func(v *fw.Violation) bool { return strings.Contains(v.Case, "arc-rot120-large") },
+			// Length() of a cubic with collinear control points that turns back twice: off by at most 5 %
+			// (the quadrature error of the unchanged tree is 2 to 3.5 %; anything larger is something else)
+			"collinear-cubic-length-within-5-percent": func(v *fw.Violation) bool {
+				m := regexp.MustCompile(`\(([0-9.]+) %\)`).FindStringSubmatch(v.Detail)
+				if m == nil || !strings.Contains(v.Case, "cube-collinear-two-cusps") {
+					return false
+				}
+				pct, err := strconv.ParseFloat(m[1], 64)
+				return err == nil && pct <= 5
+			},
 		},
 		Families: families,
 	}
